@@ -990,7 +990,25 @@ fn finish_text(r: &mut Rng, lines: Vec<Vec<u8>>, out: &mut Out) -> Vec<u8> {
 }
 
 /// a structurally valid file (lines as (indent, fields)), then token / indentation / arity mutations
+/// inserts one multi-byte character (2, 3 or 4 bytes) at a character boundary among the first few characters of a field:
+/// any slicing of the field at a fixed *byte* offset then lands inside a character for some generated field
+fn splice_multibyte(r: &mut Rng, field: &mut Vec<u8>) {
+	let ch = *r.pick(&["é", "٣", "日", "€", "\u{1f600}", "\u{a0}"]);
+	let Ok(s) = std::str::from_utf8(field) else { return };
+	let bounds: Vec<usize> = s.char_indices().map(|(i, _)| i).chain(std::iter::once(s.len())).take(5).collect();
+	let at = *r.pick(&bounds);
+	let mut v = field[..at].to_vec();
+	v.extend_from_slice(ch.as_bytes());
+	v.extend_from_slice(&field[at..]);
+	*field = v;
+}
+
 fn mutate_lines(r: &mut Rng, lines: &mut Vec<(usize, Vec<Vec<u8>>)>, out: &mut Out) {
+	if !lines.is_empty() && r.chance(1, 8) {
+		let i = r.below(lines.len());
+		let f = &mut lines[i].1;
+		if !f.is_empty() { let k = r.below(f.len()); splice_multibyte(r, &mut f[k]); out.stats.hit("text-mut:multibyte"); }
+	}
 	let n = match r.below(10) { 0 | 1 | 2 | 3 => 0, 4 | 5 | 6 | 7 => 1, 8 => 2, _ => 4 };
 	for _ in 0..n {
 		if lines.is_empty() { break; }
@@ -1093,12 +1111,23 @@ fn gen_enigma_text(r: &mut Rng, out: &mut Out) -> Vec<u8> {
 fn gen_nests_text(r: &mut Rng, out: &mut Out) -> Vec<u8> {
 	let mut lines = Vec::new();
 	for _ in 0..r.range(0, 4) {
+		// a valid line (every field passes its check, so that each of the six field parsers is reached) ...
+		let meth = r.below(3);
 		let mut f: Vec<Vec<u8>> = vec![
-			r.pick(&["a/B$C", "A$1", "x", ""]).as_bytes().to_vec(), r.pick(&["a/B", "A", "[I", ""]).as_bytes().to_vec(),
-			r.pick(&["", "m", "<init>", "a.b"]).as_bytes().to_vec(), r.pick(&["", "()V", "(I)V", "x"]).as_bytes().to_vec(),
-			r.pick(&["C", "1", "1Local", "", "a/b", "٣"]).as_bytes().to_vec(), r.pick(&["0", "8", "0x0008", "0b1000", "65535", "65536", "-1", "0x", "", "+5"]).as_bytes().to_vec(),
+			r.pick(&["a/B$C", "A$1", "x", "é/日"]).as_bytes().to_vec(), r.pick(&["a/B", "A", "x/y/Z"]).as_bytes().to_vec(),
+			(if meth == 0 { "" } else { *r.pick(&["m", "<init>", "lambda$0"]) }).as_bytes().to_vec(),
+			(if meth == 1 { "" } else { *r.pick(&["()V", "(I)V", "(LA;[J)LB;"]) }).as_bytes().to_vec(),
+			r.pick(&["C", "1", "1Local", "٣", "Inner"]).as_bytes().to_vec(), r.pick(&["0", "8", "0x0008", "0b1000", "65535", "0xffff", "0b1111111111111111", "010"]).as_bytes().to_vec(),
 		];
-		match r.below(10) { 0 => { f.pop(); } 1 => f.push(text_token(r)), 2 => { let i = r.below(f.len()); f[i] = text_token(r); } _ => {} }
+		// ... with at most one defect, in one field
+		match r.below(12) {
+			0 => { f.pop(); }
+			1 => f.push(text_token(r)),
+			2 | 3 => { let i = r.below(f.len()); f[i] = text_token(r); }
+			4 => { let i = r.below(f.len()); f[i] = r.pick(&["", "[I", "a.b", "x", "a/b", "65536", "-1", "0x", "0b", "+5", "0X8", "0B1", "0x10000", "0b2", "0xg"]).as_bytes().to_vec(); }
+			5 | 6 | 7 => { let i = r.below(f.len()); splice_multibyte(r, &mut f[i]); out.stats.hit("nests:multibyte"); }
+			_ => { out.stats.hit("nests:valid-line"); }
+		}
 		lines.push(join_line(r, 0, &f, b'\t'));
 	}
 	out.stats.hit("nests:text");
